@@ -305,46 +305,56 @@ pub open spec fn oversize_alone(t: TelemetryEvent) -> bool { xml_len(seq![t]) >=
 // ------------------------------------------------------------------------------------------------
 // (C) effect trace (E4): what reaches the host and which files are removed
 // ------------------------------------------------------------------------------------------------
+/// one upload: the body handed to WireServerClient::send_telemetry_data and whether the host accepted it
+pub struct Post { pub body: Seq<char>, pub ok: bool }
 pub tracked struct Trace {
-    /// every body handed to WireServerClient::send_telemetry_data, in order (appended by the stub of that function)
-    pub ghost posts: Seq<Seq<char>>,
-    /// logical batches: one entry per non-empty TelemetryData that reached the upload loop (ghost bookkeeping, proved consistent with `posts`)
+    /// every upload, in order (appended by the stub of WireServerClient::send_telemetry_data: the only assumed part)
+    pub ghost posts: Seq<Post>,
+    /// logical batches: one entry per non-empty TelemetryData that reached the upload loop
+    /// (ghost bookkeeping written by send_data_to_wire_server, proved consistent with `posts` by wf)
     pub ghost batches: Seq<Seq<TelemetryEvent>>,
-    /// number of upload attempts made for batches[i]
+    /// number of upload attempts made for batches[i], and the outcome of the last one
     pub ghost attempts: Seq<int>,
+    pub ghost last_ok: Seq<bool>,
     /// every path handed to std::fs::remove_file by clean_files, in order
     pub ghost removed: Seq<std::path::PathBuf>,
 }
-pub open spec fn repeat(x: Seq<char>, k: int) -> Seq<Seq<char>>
+/// k failed uploads of the same body
+pub open spec fn fails(x: Seq<char>, k: int) -> Seq<Post>
     decreases k
 {
-    if k <= 0 { seq![] } else { repeat(x, k - 1).push(x) }
+    if k <= 0 { seq![] } else { fails(x, k - 1).push(Post { body: x, ok: false }) }
 }
-/// the bodies that the batches account for: batch i is POSTed attempts[i] times in a row, identical each time
-pub open spec fn expand(batches: Seq<Seq<TelemetryEvent>>, attempts: Seq<int>) -> Seq<Seq<char>>
+/// the uploads that the batches account for: batch i is POSTed attempts[i] times in a row with the identical document,
+/// every attempt but the last one having FAILED (a batch is never re-sent after the host accepted it)
+pub open spec fn expand(batches: Seq<Seq<TelemetryEvent>>, attempts: Seq<int>, last_ok: Seq<bool>) -> Seq<Post>
     decreases batches.len()
 {
-    if batches.len() == 0 || attempts.len() != batches.len() { seq![] }
-    else { expand(batches.drop_last(), attempts.drop_last()) + repeat(xml_of(batches.last()), attempts.last()) }
+    if batches.len() == 0 || attempts.len() != batches.len() || last_ok.len() != batches.len() { seq![] }
+    else {
+        expand(batches.drop_last(), attempts.drop_last(), last_ok.drop_last())
+            + fails(xml_of(batches.last()), attempts.last() - 1).push(Post { body: xml_of(batches.last()), ok: last_ok.last() })
+    }
 }
 impl Trace {
-    /// every POST body is the document of a recorded batch; a batch is re-sent only on failure, at most 5 times in all
+    /// every upload is the document of a recorded batch; a batch is re-sent only after a failure, at most 5 times in all;
+    /// every recorded batch is non-empty and smaller than 64 KiB
     pub open spec fn wf(self) -> bool {
         &&& self.attempts.len() == self.batches.len()
-        &&& self.posts == expand(self.batches, self.attempts)
+        &&& self.last_ok.len() == self.batches.len()
+        &&& self.posts == expand(self.batches, self.attempts, self.last_ok)
         &&& forall|i: int| 0 <= i < self.batches.len() ==> 1 <= #[trigger] self.attempts[i] <= 5
         &&& forall|i: int| 0 <= i < self.batches.len() ==> batch_ok(#[trigger] self.batches[i])
     }
+    pub open spec fn same_uploads(self, o: Trace) -> bool {
+        self.posts == o.posts && self.batches == o.batches && self.attempts == o.attempts && self.last_ok == o.last_ok
+    }
 }
-
-impl Trace {
-    pub open spec fn same_uploads(self, o: Trace) -> bool { self.posts == o.posts && self.batches == o.batches && self.attempts == o.attempts }
-}
-pub broadcast proof fn lemma_repeat_len(x: Seq<char>, k: int)
-    ensures #[trigger] repeat(x, k).len() == (if k <= 0 { 0 } else { k })
+pub broadcast proof fn lemma_fails_len(x: Seq<char>, k: int)
+    ensures #[trigger] fails(x, k).len() == (if k <= 0 { 0 } else { k })
     decreases k
 {
-    if k > 0 { lemma_repeat_len(x, k - 1); }
+    if k > 0 { lemma_fails_len(x, k - 1); }
 }
 pub broadcast proof fn lemma_concat_push<A>(a: Seq<A>, b: Seq<A>, x: A)
     ensures #[trigger] (a + b).push(x) == a + b.push(x)
